@@ -256,6 +256,11 @@ func (a *Analysis) step(st *State, fr *frame, in ssa.Instruction) {
 			bs = append(bs, a.exprOf(st, fr, b))
 		}
 		a.bind(st, fr, x, mk("closure", x.Type(), a.P.Name(fn), 0, bs...))
+		for i, b := range x.Bindings {
+			if al, ok := b.(*ssa.Alloc); ok && cellMutatedBy(fn, i, 0) {
+				st.shared[a.exprOf(st, fr, al).Key] = true
+			}
+		}
 	case *ssa.Lookup:
 		a.bind(st, fr, x, a.freshLeaf(st, fr, "val", x))
 	case *ssa.Range, *ssa.Next:
@@ -848,6 +853,40 @@ func (a *Analysis) callEffects(st *State, fr *frame, c ssa.CallInstruction, asyn
 	for cls := range mods {
 		st.killClass(cls, siteTok(fr, c))
 	}
+	// captured variables that some closure assigns: any call may run it
+	for k := range st.shared {
+		for mk := range st.mem {
+			if strings.Contains(mk, k) {
+				delete(st.mem, mk)
+				delete(st.memE, mk)
+			}
+		}
+		st.ver["A:"+k] = siteTok(fr, c)
+	}
+}
+
+// cellMutatedBy reports whether closure fn (or a closure nested in it that
+// receives the same cell) stores to its i-th captured variable.
+func cellMutatedBy(fn *ssa.Function, i int, depth int) bool {
+	if depth > 3 || i >= len(fn.FreeVars) {
+		return false
+	}
+	fv := fn.FreeVars[i]
+	for _, r := range *fv.Referrers() {
+		switch x := r.(type) {
+		case *ssa.Store:
+			if x.Addr == ssa.Value(fv) {
+				return true
+			}
+		case *ssa.MakeClosure:
+			for j, b := range x.Bindings {
+				if b == ssa.Value(fv) && cellMutatedBy(x.Fn.(*ssa.Function), j, depth+1) {
+					return true
+				}
+			}
+		}
+	}
+	return false
 }
 
 // ---- fixpoint -------------------------------------------------------------------
